@@ -622,7 +622,7 @@ type ContractFile struct {
 var reFuncHdr = regexp.MustCompile(`^(func|iface|extern)\s+(\S+)(.*)$`)
 var reLoop = regexp.MustCompile(`^loop\s+(\d+)\s*:\s*(invariant|decreases|exhaustive)\b\s*(.*)$`)
 var reCalls = regexp.MustCompile(`^calls\s+(\S+?)#(\d+|\*)\s*:\s*(requires|ensures|set|pure)\b\s*(.*)$`)
-var reAt = regexp.MustCompile(`^at\s+(assign\s+(\w+)#(\d+)|loop\s+(\d+)\s+back|send#(\d+))\s*:\s*(assert|set)\s+(.*)$`)
+var reAt = regexp.MustCompile(`^at\s+(assign\s+(\w+)#(\d+)|loop\s+(\d+)\s+(?:back|exit)|send#(\d+))\s*:\s*(assert|set)\s+(.*)$`)
 var reSpecFunc = regexp.MustCompile(`^spec\s+(?:func|macro)\s+(\w+)\s*\(([^)]*)\)\s*([\w.\[\]*$]+)\s*(?:=\s*(.*))?$`)
 var reGhost = regexp.MustCompile(`^ghost\s+(\w+)\s+([\w.\[\]*]+)\s*=\s*(.*)$`)
 var reSet = regexp.MustCompile(`^(\w+)\s*=\s*(.*)$`)
@@ -803,6 +803,9 @@ func ParseContractFile(path string) (*ContractFile, error) {
 				aa.Ord, _ = strconv.Atoi(m[3])
 			case m[4] != "":
 				aa.Anchor = "loopback"
+				if strings.Contains(m[1], "exit") {
+					aa.Anchor = "loopexit"
+				}
 				aa.Ord, _ = strconv.Atoi(m[4])
 			default:
 				aa.Anchor = "send"
